@@ -111,6 +111,7 @@ type Path struct {
 	funcsSeen map[*ssa.Function]int
 	locs map[string]*Cell
 	spec *specState
+	failedAsserts int
 	nondetMaps map[*MapObj]bool
 	initBase int
 	inTimeNow bool
@@ -448,80 +449,51 @@ func (p *Path) assert(c *Term, id string) {
 			p.discharged++
 			return
 		}
-		p.flushAsserts()
+		// violated on this (feasible) path: report it and go on, as the native harness does
 		p.s.Push()
 		if p.s.Check() != Unsat {
 			p.recordFailure(id, "assert", "")
 		}
 		p.s.Pop()
-		panic(pathEnd{"assert-failed"})
+		p.failedAsserts++
+		return
 	}
 	p.pending = append(p.pending, pendingAssert{c, id})
 }
 
+// flushAsserts discharges the pending assertions with one query; if that query is
+// satisfiable each assertion is checked on its own so that every violated one is
+// reported (assertions never constrain the path).
 func (p *Path) flushAsserts() {
-	for len(p.pending) > 0 {
-		cs := make([]*Term, len(p.pending))
-		for i, pa := range p.pending {
-			cs[i] = pa.c
+	if len(p.pending) == 0 {
+		return
+	}
+	pend := p.pending
+	p.pending = nil
+	cs := make([]*Term, len(pend))
+	for i, pa := range pend {
+		cs[i] = pa.c
+	}
+	p.s.tag = "flush"
+	if len(pend) > 1 {
+		if r := p.s.CheckWith(mkNot(mkAnd(cs...))); r == Unsat {
+			p.discharged += len(pend)
+			return
 		}
+	}
+	for _, pa := range pend {
 		p.s.Push()
-		p.s.Assert(mkNot(mkAnd(cs...)))
-		p.s.tag = "flush"
-		r := p.s.Check()
-		if r == Unsat {
-			p.s.Pop()
-			p.discharged += len(p.pending)
-			p.pending = nil
-			return
+		p.s.Assert(mkNot(pa.c))
+		switch p.s.Check() {
+		case Unsat:
+			p.discharged++
+		case Sat:
+			p.recordFailure(pa.id, "assert", "", pa.c)
+			p.failedAsserts++
+		default:
+			p.failures = append(p.failures, &Failure{AssertID: pa.id, Kind: "inconclusive", Detail: "solver unknown", Prefix: append([]int{}, p.prefix[:p.pos]...)})
 		}
-		if r == Unknown {
-			p.s.Pop()
-			for _, pa := range p.pending {
-				p.failures = append(p.failures, &Failure{AssertID: pa.id, Kind: "inconclusive", Detail: "solver unknown", Prefix: append([]int{}, p.prefix[:p.pos]...)})
-			}
-			p.pending = nil
-			return
-		}
-		// sat: find the first violated assertion under the model
-		vars := p.allVars()
-		seen := map[*Term]bool{}
-		vm := map[string]*Term{}
-		for _, v := range vars {
-			vm[v.sv] = v
-		}
-		for _, c := range cs {
-			collectVars(c, seen, vm)
-		}
-		vars = vars[:0]
-		for _, v := range vm {
-			vars = append(vars, v)
-		}
-		model := p.s.GetValues(vars)
 		p.s.Pop()
-		memo := map[*Term]*Term{}
-		bad := -1
-		for i, c := range cs {
-			if v, ok := evalTerm(c, model, memo).constBool(); !ok || !v {
-				bad = i
-				break
-			}
-		}
-		if bad < 0 {
-			bad = 0
-		}
-		p.failures = append(p.failures, p.failureFromModel(p.pending[bad].id, "assert", "", model))
-		p.discharged += bad
-		rest := p.pending[bad+1:]
-		head := p.pending[:bad+1]
-		p.pending = nil
-		for _, pa := range head {
-			if p.s.CheckWith(pa.c) == Unsat {
-				panic(pathEnd{"assert-failed"})
-			}
-			p.addPC(pa.c)
-		}
-		p.pending = rest
 	}
 }
 
